@@ -472,6 +472,271 @@ theorem decode_ok_of_model {buf : Bytes} {cs : List Bytes} {n : Nat} (h : Name.d
     Gen.NameGen.decode buf 0 = .ok (cs, (n : Int)) := by
   rw [decode_eq, h]; rfl
 
+
+/-! ### `Name.decode(buf, offset)` at ANY offset `0 ≤ offset` -/
+
+/-- the translated source at a natural-number offset is the model `Ndn.Name.decodeAt` -/
+theorem decode_at_nat (buf : Bytes) (off : Nat) :
+    Gen.NameGen.decode buf (off : Int) = (Name.decodeAt buf off).map castRes := by
+  simp only [Gen.NameGen.decode, Name.decodeAt]
+  cases h1 : parseTlNum buf off with
+  | error e => rw [parse_tl_num_error _ rfl h1]; rfl
+  | ok p1 =>
+    obtain ⟨typ, st⟩ := p1
+    rw [parse_tl_num_ok _ rfl h1]
+    simp only [ok_bind]
+    have hT : Name.TYPE_NAME = 7 := rfl
+    by_cases ht : typ = 7
+    · rw [if_neg (by omega), if_neg (by omega)]
+      cases h2 : parseTlNum buf (off + st) with
+      | error e => rw [parse_tl_num_error _ (by omega) h2]; rfl
+      | ok p2 =>
+        obtain ⟨length, sl⟩ := p2
+        rw [parse_tl_num_ok _ (by omega) h2]
+        simp only [ok_bind]
+        have hl : Py.len buf = ((buf.length : Nat) : Int) := rfl
+        have w2 := parseTlNum_within h2
+        by_cases hov : length > buf.length - (off + st + sl)
+        · rw [if_pos (by omega), if_pos hov]; rfl
+        · rw [if_neg (by omega), if_neg hov]
+          have e1 : ((off : Int) + (st : Int) + (sl : Int)) = ((off + st + sl : Nat) : Int) := by omega
+          have e2 : Int.toNat ((length : Int) + 1) = length + 1 := by omega
+          rw [e1, e2, loop_eq buf _ _ _ _ (by omega)]
+          cases hm : Name.decodeLoop buf (length + 1) (off + st + sl) length [] with
+          | error e => rfl
+          | ok r =>
+            obtain ⟨cs, used⟩ := r
+            have hu := (decodeLoop_ok_exact buf _ _ _ _ _ _ (by omega) hm).1
+            simp only [Except.map, loopRes, ok_bind, castRes]
+            show Except.ok _ = Except.ok _
+            congr 2
+            omega
+    · rw [if_pos (by omega), if_pos (by omega)]; rfl
+
+/-- **Name.decode at an offset**, EVERY byte string, EVERY offset `0 ≤ off`: the translated source - two
+    `parse_tl_num` at `offset`, the Type check, the Length test `length > len(buf) - offset`, the `while` loop, the result
+    `(ret, offset - origin_offset)` - IS `Ndn.Name.decodeAt buf off`: the same components, the same number of bytes
+    consumed, the same exception class.  Plain equality, no fuel hypothesis. -/
+theorem decode_at_eq (buf : Bytes) (off : Int) (h : 0 ≤ off) :
+    Gen.NameGen.decode buf off = (Name.decodeAt buf off.toNat).map castRes := by
+  have := decode_at_nat buf off.toNat
+  rwa [Int.toNat_of_nonneg h] at this
+
+/-- ... which is decoding the SUFFIX `buf[off:]` from its start (`decodeAt_eq_drop`): same components, same count, same
+    exception - whatever the bytes before the offset are.  `off ≥ len(buf)`: the suffix is empty, `IndexError`. -/
+theorem decode_at_drop (buf : Bytes) (off : Int) (h : 0 ≤ off) :
+    Gen.NameGen.decode buf off = (Name.decode (buf.drop off.toNat)).map castRes := by
+  rw [decode_at_eq buf off h, decodeAt_eq_drop]
+
+/-- so decoding at an offset is the translated source run on the suffix at offset 0 -/
+theorem decode_at_suffix (buf : Bytes) (off : Int) (h : 0 ≤ off) :
+    Gen.NameGen.decode buf off = Gen.NameGen.decode (buf.drop off.toNat) 0 := by
+  rw [decode_at_drop buf off h, decode_eq]
+
+theorem decode_at_outside (buf : Bytes) (off : Int) (h : (buf.length : Int) ≤ off) :
+    Gen.NameGen.decode buf off = .error .indexError := by
+  rw [decode_at_eq buf off (by omega), decodeAt_outside buf _ (by omega)]; rfl
+
+/-- the fuel of the loop is never exhausted at any offset `0 ≤ off` either -/
+theorem decode_at_fuel_suffices (buf : Bytes) (off : Int) (h : 0 ≤ off) : Gen.NameGen.decode buf off ≠ .error .other := by
+  rw [decode_at_suffix buf off h]; exact decode_fuel_suffices _
+
+/-! ### NEGATIVE offsets: what the source does
+
+`parse_tl_num` reads `buf[offset]`, which Python indexes from the end for `offset < 0`, and its slices
+`buf[offset+1:offset+3]` normalise a negative bound but NOT a bound that has reached 0; `decode` uses the number as it
+is in `length > len(buf) - offset` (the test is WEAKER by `|offset|`) and in the slices `buf[st:offset]`.  So:
+`offset < -len(buf)` is an `IndexError` (`decode_below`); for `-len(buf) ≤ offset < 0` the call behaves like the
+equivalent offset `len(buf) + offset` as long as no offset reaches 0, i.e. when the Name element ends strictly before the
+end of the buffer (`decode_neg_ok`); when it ends exactly WITH the buffer the last slice is `buf[st:0]` = empty, and an
+offset that reaches 0 goes on reading at the START of the buffer (the two `example`s at the end of this file). -/
+
+theorem bytesGet_below (buf : Bytes) (off : Int) (h : off + (buf.length : Int) < 0) :
+    bytesGet buf off = .error .indexError := by
+  unfold bytesGet getItem
+  simp only
+  have e : off < 0 := by omega
+  simp only [e, h, if_true]
+
+theorem bytesGet_wrap (buf : Bytes) (off : Int) (h0 : off < 0) (h : 0 ≤ off + (buf.length : Int)) :
+    bytesGet buf off = bytesGet buf (off + (buf.length : Int)) := by
+  unfold bytesGet getItem
+  simp only
+  have e : ¬ off + (buf.length : Int) < 0 := by omega
+  simp only [h0, e, if_true, if_false]
+
+theorem slice_wrap {α} (l : List α) (x y : Int) (hx : x < 0) (hy : y < 0) (hx' : 0 ≤ x + (l.length : Int))
+    (hy' : 0 ≤ y + (l.length : Int)) : slice l x y = slice l (x + (l.length : Int)) (y + (l.length : Int)) := by
+  unfold slice normIdx
+  rw [if_pos hx, if_pos hy, if_neg (by omega), if_neg (by omega), Nat.min_eq_left (by omega), Nat.min_eq_left (by omega)]
+
+theorem parse_n_of_bind {u : Except PyErr Nat} {c v n : Nat} (h : (u >>= fun x => pure (x, c)) = Except.ok (v, n)) : n = c := by
+  cases u with
+  | error e => cases h
+  | ok x => cases h; rfl
+
+theorem parse_tl_num_wrap {buf : Bytes} {a v n : Nat} (x : Int) (hx : x = (a : Int) - (buf.length : Int))
+    (h : parseTlNum buf a = .ok (v, n)) (hn : a + n < buf.length ∨ n = 1) :
+    Gen.TlvVar.parse_tl_num buf x = .ok ((v : Int), (n : Int)) := by
+  have hw := parseTlNum_within h
+  have hp := parse_size_pos h
+  have hm := parse_tl_num_ok (a : Int) rfl h
+  rw [← hm]
+  subst hx
+  simp only [Gen.TlvVar.parse_tl_num]
+  rw [bytesGet_wrap buf _ (by omega) (by omega)]
+  have e : (a : Int) - (buf.length : Int) + (buf.length : Int) = (a : Int) := by omega
+  rw [e, bytesGet_nat]
+  unfold parseTlNum at h
+  cases hb : buf[a]? with
+  | none => rw [hb] at h; cases h
+  | some b =>
+    rw [hb] at h
+    simp only at h
+    simp only [ok_bind]
+    have hlt := b.toNat_lt
+    rcases (by omega : b.toNat ≤ 252 ∨ b.toNat = 253 ∨ b.toNat = 254 ∨ b.toNat = 255) with hc | hc | hc | hc
+    · simp (disch := omega) only [if_pos, if_neg]
+    · simp (disch := omega) only [if_pos, if_neg] at h
+      have hn3 := parse_n_of_bind h
+      simp (disch := omega) only [if_pos, if_neg]
+      rw [slice_wrap buf _ _ (by omega) (by omega) (by omega) (by omega)]
+      have e1 : (a : Int) - (buf.length : Int) + 1 + (buf.length : Int) = (a : Int) + 1 := by omega
+      have e2 : (a : Int) - (buf.length : Int) + 3 + (buf.length : Int) = (a : Int) + 3 := by omega
+      rw [e1, e2]
+    · simp (disch := omega) only [if_pos, if_neg] at h
+      have hn3 := parse_n_of_bind h
+      simp (disch := omega) only [if_pos, if_neg]
+      rw [slice_wrap buf _ _ (by omega) (by omega) (by omega) (by omega)]
+      have e1 : (a : Int) - (buf.length : Int) + 1 + (buf.length : Int) = (a : Int) + 1 := by omega
+      have e2 : (a : Int) - (buf.length : Int) + 5 + (buf.length : Int) = (a : Int) + 5 := by omega
+      rw [e1, e2]
+    · simp (disch := omega) only [if_pos, if_neg] at h
+      have hn3 := parse_n_of_bind h
+      simp (disch := omega) only [if_pos, if_neg]
+      rw [slice_wrap buf _ _ (by omega) (by omega) (by omega) (by omega)]
+      have e1 : (a : Int) - (buf.length : Int) + 1 + (buf.length : Int) = (a : Int) + 1 := by omega
+      have e2 : (a : Int) - (buf.length : Int) + 9 + (buf.length : Int) = (a : Int) + 9 := by omega
+      rw [e1, e2]
+
+/-- the translated loop started at the NEGATIVE offset `a - len(buf)`: when the declared extent ends strictly before
+    the end of the buffer (`a + length < len(buf)`: no offset reaches 0) and the model loop at `a` succeeds, the source
+    returns the same components and the negative end offset -/
+theorem loop_wrap (buf : Bytes) : ∀ (fuel a length : Nat) (acc : List Bytes) (r : List Bytes × Nat), length < fuel →
+    a + length < buf.length → Name.decodeLoop buf fuel a length acc = .ok r →
+    Gen.NameGen.decode_loop_1 buf fuel ((a : Int) - (buf.length : Int), (length : Int), acc)
+      = .ok ((r.2 : Int) - (buf.length : Int), (0 : Int), r.1) := by
+  intro fuel
+  induction fuel with
+  | zero => intro a length acc r h; omega
+  | succ f ih =>
+    intro a length acc r hlt hin h
+    rw [Gen.NameGen.decode_loop_1]
+    rw [Name.decodeLoop] at h
+    by_cases hz : length = 0
+    · subst hz
+      rw [if_pos rfl] at h
+      cases h
+      simp
+      rfl
+    · rw [if_neg hz] at h
+      rw [if_pos (by omega)]
+      cases h1 : parseTlNum buf a with
+      | error e => rw [h1] at h; cases h
+      | ok p1 =>
+        obtain ⟨t, st⟩ := p1
+        rw [h1] at h
+        simp only [ok_bind] at h
+        cases h2 : parseTlNum buf (a + st) with
+        | error e => rw [h2] at h; cases h
+        | ok p2 =>
+          obtain ⟨lc, sl⟩ := p2
+          rw [h2] at h
+          simp only [ok_bind] at h
+          have p1 := parse_size_pos h1
+          have p2 := parse_size_pos h2
+          by_cases hov : a + st + sl + lc - a > length
+          · rw [if_pos hov] at h; cases h
+          · rw [if_neg hov] at h
+            rw [parse_tl_num_wrap _ rfl h1 (by omega)]
+            simp only [ok_bind]
+            rw [parse_tl_num_wrap _ (by omega) h2 (by omega)]
+            simp only [ok_bind]
+            rw [if_neg (by omega)]
+            have hs : slice buf ((a : Int) - (buf.length : Int))
+                ((a : Int) - (buf.length : Int) + (st : Int) + ((sl : Int) + (lc : Int))) = pySlice buf a (a + st + sl + lc) := by
+              rw [slice_wrap buf _ _ (by omega) (by omega) (by omega) (by omega)]
+              exact slice_nat buf a (a + st + sl + lc) _ _ (by omega) (by omega)
+            have e1 : ((a : Int) - (buf.length : Int) + (st : Int) + ((sl : Int) + (lc : Int)))
+                = ((a + st + sl + lc : Nat) : Int) - (buf.length : Int) := by omega
+            have e2 : ((length : Int) - ((a : Int) - (buf.length : Int) + (st : Int) + ((sl : Int) + (lc : Int)) - ((a : Int) - (buf.length : Int))))
+                = ((length - (a + st + sl + lc - a) : Nat) : Int) := by omega
+            rw [hs, e2, e1]
+            exact ih _ _ _ _ (by omega) (by omega) h
+
+/-- **an offset below `-len(buf)`**: `IndexError` (the first `buf[offset]` of `parse_tl_num`) -/
+theorem decode_below (buf : Bytes) (off : Int) (h : off + (buf.length : Int) < 0) :
+    Gen.NameGen.decode buf off = .error .indexError := by
+  simp only [Gen.NameGen.decode, Gen.TlvVar.parse_tl_num]
+  rw [bytesGet_below buf off h]
+  rfl
+
+/-- **NEGATIVE offsets `-len(buf) ≤ -k < 0`, the case in which they mean what Python users expect**: when decoding at
+    the equivalent offset `len(buf) - k` succeeds and the Name element ends STRICTLY before the end of the buffer
+    (`n < k`), `Name.decode(buf, -k)` returns the same components and count.  (When the element reaches the end of the
+    buffer an offset becomes 0 and the source's slices / reads wrap around: outside this theorem, see TRUSTED.) -/
+theorem decode_neg_ok (buf : Bytes) (k : Nat) (cs : List Bytes) (n : Nat) (hk : k ≤ buf.length) (hn : n < k)
+    (h : Name.decodeAt buf (buf.length - k) = .ok (cs, n)) :
+    Gen.NameGen.decode buf (-(k : Int)) = .ok (cs, (n : Int)) := by
+  simp only [Name.decodeAt] at h
+  simp only [Gen.NameGen.decode]
+  cases h1 : parseTlNum buf (buf.length - k) with
+  | error e => rw [h1] at h; cases h
+  | ok p1 =>
+    obtain ⟨typ, st⟩ := p1
+    rw [h1] at h
+    simp only [ok_bind] at h
+    have hT : Name.TYPE_NAME = 7 := rfl
+    by_cases ht : typ = 7
+    · rw [if_neg (by omega)] at h
+      cases h2 : parseTlNum buf (buf.length - k + st) with
+      | error e => rw [h2] at h; cases h
+      | ok p2 =>
+        obtain ⟨length, sl⟩ := p2
+        rw [h2] at h
+        simp only [ok_bind] at h
+        have w2 := parseTlNum_within h2
+        have p1 := parse_size_pos h1
+        have p2 := parse_size_pos h2
+        by_cases hov : length > buf.length - (buf.length - k + st + sl)
+        · rw [if_pos hov] at h; cases h
+        · rw [if_neg hov] at h
+          cases hm : Name.decodeLoop buf (length + 1) (buf.length - k + st + sl) length [] with
+          | error e => rw [hm] at h; cases h
+          | ok r =>
+            rw [hm] at h
+            have hu := (decodeLoop_ok_exact buf _ _ _ _ _ _ (by omega) hm).1
+            obtain ⟨rc, ru⟩ := r
+            simp only [ok_bind] at h
+            cases h
+            simp only at hu
+            subst hu
+            rw [parse_tl_num_wrap _ (by omega) h1 (by omega)]
+            simp only [ok_bind]
+            rw [if_neg (by omega)]
+            rw [parse_tl_num_wrap _ (by omega) h2 (by omega)]
+            simp only [ok_bind]
+            have hl : Py.len buf = ((buf.length : Nat) : Int) := rfl
+            rw [if_neg (by omega)]
+            have e1 : (-(k : Int) + (st : Int) + (sl : Int)) = ((buf.length - k + st + sl : Nat) : Int) - (buf.length : Int) := by omega
+            have e2 : Int.toNat ((length : Int) + 1) = length + 1 := by omega
+            rw [e1, e2, loop_wrap buf _ _ _ _ _ (by omega) (by omega) hm]
+            simp only [ok_bind]
+            show Except.ok _ = Except.ok _
+            congr 2
+            omega
+    · rw [if_pos (by omega)] at h; cases h
+
 /-! ### the translated definitions run -/
 example : Gen.NameGen.decode [7, 5, 8, 1, 0x61, 8, 0, 9] 0 = .ok ([[8, 1, 0x61], [8, 0]], 7) := by decide +kernel
 /-- a component that runs past the declared Length of the Name: the source and the model raise IndexError -/
@@ -482,6 +747,17 @@ example : Gen.NameGen.decode [7, 3, 8, 2, 0x61, 0x62, 8, 0] 0 = .error .indexErr
     Name.decode [7, 3, 8, 2, 0x61, 0x62, 8, 0] = .error .indexError := by
   decide +kernel
 example : Gen.NameGen.decode [6, 0] 0 = .error .valueError := by decide +kernel
+example : Gen.NameGen.decode [0xAA, 7, 2, 8, 0, 0xBB] 1 = .ok ([[8, 0]], 4) := by decide +kernel
+example : Gen.NameGen.decode [7, 2, 8, 0] 4 = .error .indexError := by decide +kernel
+/-- negative offset, the element ends before the end of the buffer: as at offset `len(buf) - 5` -/
+example : Gen.NameGen.decode [0xAA, 7, 2, 8, 0, 0xBB] (-5) = .ok ([[8, 0]], 4) := by decide +kernel
+example : Gen.NameGen.decode [7, 2, 8, 0] (-5) = .error .indexError := by decide +kernel
+/-- WHAT THE SOURCE DOES with a negative offset when the element ends with the buffer: the last component is the empty
+    slice `buf[-2:0]` - no exception, wrong components (`[b'']` instead of `[b'\x08\x00']`) -/
+example : Gen.NameGen.decode [7, 2, 8, 0] (-4) = .ok ([[]], 4) := by decide +kernel
+/-- ... and when an offset reaches 0 the reading goes on at the START of the buffer: Type 7 is the LAST byte, Length and
+    the component are the first three -/
+example : Gen.NameGen.decode [2, 8, 0, 7] (-1) = .ok ([[8, 0]], 4) := by decide +kernel
 example : Gen.NameGen.decode [7, 0xFD, 1] 0 = .error .structError := by decide +kernel
 example : Gen.NameGen.encode [[8, 1, 0x61], [8, 0]] none 0 = .ok ([7, 5, 8, 1, 0x61, 8, 0], none) := by decide +kernel
 example : Gen.NameGen.encode [[8, 1, 0x61]] (some [1, 2, 3, 4, 5, 6, 7]) 1 = .ok ([1, 7, 3, 8, 1, 0x61, 7], some [1, 7, 3, 8, 1, 0x61, 7]) := by
